@@ -308,7 +308,9 @@ def linearize_measure_contents(part, start, end, state):
 
     for i in range(1, len(splits)):
         contents.extend(
-            linearize_segment_contents(part, splits[i - 1], splits[i], state)
+            linearize_segment_contents(
+                part, splits[i - 1], splits[i], state, measure_span=(start, end)
+            )
         )
 
     return contents
@@ -415,11 +417,13 @@ def remove_voice_polyphony(notes_by_voice):
 #                 part.add(rest, note.end.t, end.t)
 
 
-def linearize_segment_contents(part, start, end, state):
+def linearize_segment_contents(part, start, end, state, measure_span=None):
     """
     Determine the document order of events starting between `start` (inclusive)
     and `end` (exlusive).
     (notes, directions, divisions, time signatures).
+    `measure_span` are the first and last time point of the measure the
+    segment belongs to (the segment itself when not given).
     """
 
     notes = part.iter_all(
@@ -487,7 +491,7 @@ def linearize_segment_contents(part, start, end, state):
     attributes_e = do_attributes(part, start, end)
     directions_e = do_directions(part, start, end, state["range_counter"])
     prints_e = do_prints(part, start, end)
-    barline_e = do_barlines(part, start, end)
+    barline_e = do_barlines(part, start, end, measure_span)
 
     other_e = harmony_e + attributes_e + directions_e + barline_e + prints_e
 
@@ -510,7 +514,10 @@ def do_prints(part, start, end):
     return result
 
 
-def do_barlines(part, start, end):
+def do_barlines(part, start, end, measure_span=None):
+    # a barline element is at the left (right) of the measure only when it
+    # stands at the start (end) of the measure, not of a divisions segment
+    m_start, m_end = measure_span if measure_span is not None else (start, end)
     # all fermata that are not linked to a note (fermata at time end may be part
     # of the current or the next measure, depending on the location attribute
     # (which is stored in fermata.ref)).
@@ -557,10 +564,10 @@ def do_barlines(part, start, end):
     for onset in sorted(by_onset.keys()):
         attrib = {}
 
-        if onset == start.t:
+        if onset == m_start.t:
             attrib["location"] = "left"
 
-        elif onset == end.t:
+        elif onset == m_end.t:
             attrib["location"] = "right"
 
         else:
